@@ -3,7 +3,7 @@ CFG = dict(
               "C10.inorder_outcome_is_reference", "C10.reference_ignores_schedule", "C10.schedule_independent", "C10.delivered_is_reference_after_flush", "C10.manual_flush"],
     unproved=[],
     rule="event-time session op sequences over 1-3 keys: dense bursts, gaps timeout-1 / timeout / timeout+1 / 3*timeout+, in-order per case with prob 2/3 else out of order within and beyond the tolerance (incl. events that bridge two open sessions), "
-         "far-future and timestamp-less rows, deliveries at arbitrary positions incl. Adds in the unlock gap; SQL-level cases through the public API; distinct = distinct (cfg, op list)",
+         "far-future and timestamp-less rows, deliveries at arbitrary positions incl. Adds in the unlock gap; SQL-level cases through the public API; distinct = distinct (cfg, op list) Added late: op `reset`; `winapi` / `reuse` variant of the free-running cases (NewSessionWindow, SetCallback, Start, Reset, Start, Add). Every fifth case runs under WithHighPerformance (`preset high`), for C05/C06/C12/C13/C14/C16/C20 another fifth under WithLowLatency (`preset low`); every seventh case follows a noise prelude (failing statements, malformed rows, panicking sink / function in other instances).",
     assumptions=["one expiry pass delivers its sessions in Go map order: the harness canonicalises each pass (key, start)",
                  "row order inside a merged session (earlier session's rows first, the bridging row last) is compared as coded; the property does not order rows inside a session",
                  "two events exactly the timeout apart: the property allows either; code and model start a new session (ts >= end), which makes the outcome schedule-independent",
